@@ -6,11 +6,15 @@
 (*   drift:<clause>     the code did something the spec action does not predict       *)
 (*                                                                                    *)
 (* Events of one trace, in this order (the driver always writes all of them):         *)
-(*   Begin   n, excluded [idx], wf          the system: n series in the solver's order *)
+(*   Begin   names [[char]], option [[char]], wf   the system: its series in the solver's  *)
+(*                                          order, and the exclusion option as handed   *)
+(*                                          to the solver; which series the loop skips  *)
+(*                                          is decided HERE (SkippedSet), not by the    *)
+(*                                          driver                                      *)
 (*   Copy    deep, same_*                   observed inside _GetCopy (harness wrapper) *)
 (*   Freeze  frozen, hor_ok, same_*         observed at the first SolveStep of the copy*)
 (*   Run     res, want, cls [class], same_* observed when the call is over            *)
-(*   Judge   idx, excl, gen, inst, steady   one per series; gen = the class the system  *)
+(*   Judge   idx, gen, inst, steady         one per series; gen = the class the system  *)
 (*                                          was generated for (= observed class for    *)
 (*                                          series that are not model variables)      *)
 (*   Outcome outcome, further_ok, same_*                                              *)
@@ -35,8 +39,9 @@ SetOfSeq(s) == { s[i] : i \in 1..Len(s) }
 
 Untouched(e) == IF e.same_eq /\ e.same_exo /\ e.same_hor THEN Ok ELSE P("C15_LeavesSolverUntouched")
 
-Reset(nn, ex, w) ==
-    /\ phase' = "idle" /\ n' = nn /\ excluded' = ex /\ wf' = w
+Reset(nms, opt, w) ==
+    /\ phase' = "idle" /\ n' = Len(nms) /\ names' = nms /\ option' = opt /\ wf' = w /\ sid' = 0
+    /\ excluded' = SkippedSet(nms, opt)
     /\ runres' = "none" /\ cls' = << >> /\ judged' = {} /\ bad' = {} /\ exc' = ""
     /\ outer' = Outer0 /\ inner' = NoCopy
 
@@ -50,14 +55,15 @@ JudgeOutcome(e) ==
     ELSE IF e.outcome # ExpectedOutcome THEN D("judge_decision")
     ELSE Ok
 
-TraceInit == Setup(1, {}, TRUE) /\ l = 1 /\ verdict = Ok /\ unsteady = 0
+NoNames == << << "x" >> >>
+TraceInit == Setup(NoNames, {}, TRUE, 0) /\ l = 1 /\ verdict = Ok /\ unsteady = 0
 
 TraceNext ==
     /\ l <= Len(Log)
     /\ l' = l + 1
     /\ LET e == Log[l] IN
        \/ /\ e.ev = "Begin"
-          /\ Reset(e.n, SetOfSeq(e.excluded), e.wf)
+          /\ Reset(e.names, SetOfSeq(e.option), e.wf)
           /\ verdict' = Ok /\ unsteady' = 0
        \/ /\ e.ev = "Copy"
           /\ Copy
@@ -72,16 +78,15 @@ TraceNext ==
           /\ IF e.res = "other" /\ wf
              THEN \* a well-formed system whose search fails with an exception that is no ValueError
                   /\ phase' = "ran" /\ runres' = "other" /\ cls' = << >>
-                  /\ UNCHANGED << n, excluded, wf, judged, bad, exc, outer, inner >>
+                  /\ UNCHANGED << sys, judged, bad, exc, outer, inner >>
                   /\ verdict' = W3(verdict, Untouched(e), P("C15_OtherwiseRaises"))
              ELSE /\ Run(e.res, e.cls)
                   /\ verdict' = W3(verdict, Untouched(e),
                                    IF e.res = e.want THEN Ok ELSE D("run_result"))
           /\ UNCHANGED unsteady
        \/ /\ e.ev = "Judge"
-          /\ IF e.excl
-             THEN /\ e.idx \in excluded
-                  /\ UNCHANGED << vars, verdict, unsteady >>
+          /\ IF e.idx \in excluded
+             THEN UNCHANGED << vars, verdict, unsteady >>
              ELSE /\ Judge(e.idx)
                   /\ verdict' = W3(verdict,
                                    IF e.gen = cls[e.idx] THEN Ok ELSE D("class_realised"),
@@ -93,7 +98,7 @@ TraceNext ==
           /\ UNCHANGED unsteady
        \/ /\ e.ev = "End"
           /\ PrintT(<< "VERDICT", e.tid, verdict.kind \o ":" \o verdict.clause >>)
-          /\ Reset(1, {}, TRUE)
+          /\ Reset(NoNames, {}, TRUE)
           /\ verdict' = Ok /\ unsteady' = 0
 
 TraceSpec == TraceInit /\ [][TraceNext]_tvars
